@@ -276,6 +276,22 @@ def explore_geo(item):
             m.merge(other)
             if m.high_low != (H + k) - L_ or m.shadow_upper != (H + k) - max(O, C):
                 rep.violation("C17|geometry-after-merge|high_low", {"fn": "merge", "candle": (O, H, L_, C), "got": m.high_low, "want": (H + k) - L_})
+            # ... and after a candlestick conversion (Heikin-Ashi rewrites all four prices of the stored candles)
+            from hexital.indicators import EMA
+            ts = [datetime(2024, 3, 4, 0, j) for j in range(3)]
+            hist = [Candle(3 * k + s, 4 * k + s, 2 * k + s, 3.5 * k + s, 1, timestamp=ts[0]), Candle(O, H, L_, C, 1, timestamp=ts[1])]
+            _ = [(x.realbody, x.positive) for x in hist]
+            ind = EMA(period=2, candles=hist, candlestick_type="HA")
+            ind.append(Candle(C, H, L_, O, 1, timestamp=ts[2]))
+            rep.inc("executions")
+            for j, x in enumerate(ind.candles):
+                w = {"realbody": abs(x.open - x.close), "shadow_upper": x.high - max(x.open, x.close), "shadow_lower": min(x.open, x.close) - x.low,
+                     "high_low": x.high - x.low, "positive": x.close > x.open, "negative": x.close < x.open}
+                for f, wv in w.items():
+                    if getattr(x, f) != wv:
+                        rep.violation(f"C17|geometry-after-conversion|{f}", {"fn": f, "candle": (O, H, L_, C), "index": j, "got": getattr(x, f), "want": wv})
+                if M.positive(x) != w["positive"] or M.negative(ind.candles, j) != w["negative"]:
+                    rep.violation("C17|geometry-after-conversion|movement.positive/negative", {"fn": "positive/negative", "candle": (O, H, L_, C), "index": j})
             rep.add("states", (O, H, L_, C))
             rep.add("nontrivial", ("geo", O, H, L_, C))
     rep.inc("transitions", 1)
